@@ -1,8 +1,8 @@
 package rules
 
 import (
-	"go/types"
 	"fmt"
+	"go/types"
 	"strings"
 
 	"golang.org/x/tools/go/ssa"
@@ -18,7 +18,7 @@ func init() {
 			"(R4.1) every finalising task sequence literal ([]FinalisingStepType) in the program, per finalise reason, satisfies the order constraints K1..K6 and the next-task lookup returns seq[0] / seq[i+1] / END under the right facts (exhaustive over table rows); " +
 			"(R4.2) in both doCanaryFinalising the case for task T dispatches to T's cleanup function; (R4.3) the stores that advance the persisted FinalisingStep cursor, the stage chain of doProgressingReset and the three stages of FinalisingTrafficRouting are reachable only through the success edges (err==nil and retry==false) of the preceding cleanup call; " +
 			"(R4.6) both doCanaryUpgrade store status.podTemplateHash (the canary Service selector) from the observed workload on every path that reports the upgrade done, so routes never point the canary Service at pods of a superseded revision; (R4.5) in the canary step machine the full-replica partition step restores the stable Service successfully before the Upgrade state is entered.",
-		NotDecided: "provider internals (whether the gateway has observed the route withdrawal before the Service goes), informer-cache staleness, that pods of a revision actually exist; R4.4 (canary Service present before EnsureRoutes) is decided under C03 R3.2.",
+		NotDecided:  "provider internals (whether the gateway has observed the route withdrawal before the Service goes), informer-cache staleness, that pods of a revision actually exist; R4.4 (canary Service present before EnsureRoutes) is decided under C03 R3.2.",
 		Assumptions: []string{"a crash can only land between two API writes; the cursor/order rules are the whole static content of 'at every prefix'"},
 	})
 }
